@@ -12,10 +12,18 @@ CORR_ONLY = ["accuracy of Dawson_Integral (2e-7 absolute), Erfi (1e-6 relative),
              "point-wise identities of the harmonics (Y_{l,-m} = (-1)^m conj Y_{l,m}; vector Y = r_hat Y_lm; Psi tangential and = r grad Y_lm) "
              "against an independent reference (associated-Legendre recurrence in 40-digit arithmetic, validated against mpmath.spherharm)",
              "Boost spherical_harmonic itself; the summation loops of Vector_Spherical_Harmonics_Y/Psi (checked through the model's coefficient tables)"]
-ASSUMPTIONS = ["Erfi is evaluated for |x| <= 26 only: beyond, exp(x^2) exceeds the double range and no double implementation can meet a relative accuracy",
+ASSUMPTIONS = ["Erfi is evaluated for |x| <= 26.639 only (the property states |x| <= 30; Dawson is evaluated on all of it): the true value exceeds DBL_MAX for "
+               "|x| > 26.71, where no double implementation can meet a relative accuracy; on 26.6395 < |x| <= 26.71 the true value IS a double (erfi(26.64) = 3.47e306) "
+               "but Erfi returns inf because the intermediate 2/sqrt(pi)*exp(x^2) overflows before it is multiplied by Dawson(x) ~ 0.019 - reported as a candidate defect "
+               "(Erfi(26.64) = inf), excluded here until it is repaired or recorded",
+               "Round half-unit clause: for inputs within 2^-40 (relative) of a tie of the d-th digit the double product prefactor*10^(d-1) decides the direction, "
+               "so the bound is half a unit + 4 ulp(x) there (half*(1+2^-30) everywhere else); examples on HEAD: Round(-9.9999995e-157,7) = -1e-156, "
+               "Round(9.999999499999999e+130,7) = 1e+131, Round(5.9682484999999994e+131,7) = 5.968249e+131 (each at most 1 ulp(x) beyond half a unit)",
                "generated arguments of Round keep a relative margin 2^-40 from the rounding boundary floor(p + 0.5) unless the arithmetic is exact; "
                "Dawson arguments within 1e-9 of a node switch |x| = 0.8k + 0.4 are compared at the stated accuracy only",
-               "Floats_Equal decisions are probed with tolerances a factor >= 1 + 2^-30 away from the relative difference"]
+               "Floats_Equal: the decision is compared with the model unless the tolerance is within 2^-30 (relative) of the relative difference AND the double "
+               "computation of |a-b|/max(|a|,|b|) is inexact (exact boundary cases tol == relative difference are compared: they separate <= from <); "
+               "reflexivity and symmetry are unconditional for every tolerance >= 0"]
 TRUSTED = ["mpmath (erfi, erfinv, sqrt, spherharm for the self-test of the reference)", "the driver's rational exp (validated here against mpmath on every Dawson/Erfi request)"]
 
 LMAX = 12
@@ -154,6 +162,10 @@ def generate(tier, seed, ctx):
         c = rng.random()
         b = a if c < 0.15 else a * (1 + 2.0 ** -rng.randint(3, 40)) if c < 0.5 else dyadic(rng, -1024, 1024, 6) * 2.0 ** rng.randint(-40, 40) if c < 0.9 else -a
         pairs.append((a, b))
+    # exact boundaries tol == relative difference (separate <= from <), and the zero tolerance
+    for (a, b, t) in [(1.0, 0.5, 0.5), (1.0, 0.0, 1.0), (-4.0, -3.0, 0.25), (8.0, 7.0, 0.125), (1.0, -1.0, 2.0), (3.0, 3.0, 0.0), (0.0, 0.0, 0.0),
+                      (1e300, 1e300, 0.0), (-5e-324, -5e-324, 0.0), (2.0, 1.0, 0.5), (1.5, 0.75, 0.5)]:
+        R.append("c17.feq %s %s %s" % (hx(a), hx(b), hx(t)))
     for (a, b) in pairs:
         R.append("c17.reldiff %s %s" % (hx(a), hx(b)))
         fa, fb = Fraction(a), Fraction(b)
@@ -227,7 +239,9 @@ def generate(tier, seed, ctx):
             xs.append(x)
         R.append("c17.roundV %s %d" % (lst(xs), d))
     # Dawson / Erfi
-    xs = [0.0, 0.2, math.nextafter(0.2, 0), math.nextafter(0.2, 1), -0.2, 0.19, 0.21, 1e-300, 1e-8, 0.1, 0.4, 1.2, 2.0, 30.0, -30.0, 29.999, 0.924, 0.5, 1.0, 5.0, 10.0, 26.0]
+    xs = [0.0, 0.2, math.nextafter(0.2, 0), math.nextafter(0.2, 1), -0.2, 0.19, 0.21, 1e-300, 1e-8, 0.1, 0.4, 1.2, 2.0, 30.0, -30.0, 29.999, 0.924, 0.5, 1.0, 5.0, 10.0, 26.0,
+          26.639, -26.639, 26.5, 26.3, -26.1]
+    xs += [rng.choice([-1, 1]) * rng.uniform(25.0, 26.639) for _ in range(120 if thorough else 30)]
     for _ in range(2000 if thorough else 500):
         c = rng.random()
         xs.append(rng.choice([-1, 1]) * (rng.uniform(0, 0.4) if c < 0.25 else rng.uniform(0, 3) if c < 0.6 else rng.uniform(0, 30)))
@@ -237,7 +251,7 @@ def generate(tier, seed, ctx):
     for x in xs:
         if abs(x) <= 30:
             R.append("c17.dawson " + hx(x))
-        if abs(x) <= 26:
+        if abs(x) <= 26.639:
             R.append("c17.erfi " + hx(x))
     # Inv_Erf
     ps = [0.0, 0.5, -0.5, 0.999, -0.999, 1 - 1e-6, 1 - 1e-9, 1 - 1e-12, -1 + 1e-12, 1.0, -1.0, 1.5, -2.0, 1 - 1e-17, 1e-300, 1e-5, -1e-5]
@@ -435,10 +449,13 @@ def compare(rq, impl, model, ctx):
         r = [int(z) for z in ti]
         if r[0] != r[1]:
             out.append(fail("prop", "Floats_Equal is not symmetric", "(%r,%r,%r): %d %d" % (x, y, t, r[0], r[1])))
-        if t > 0 and (r[2] != 1 or r[3] != 1):
+        if t >= 0 and (r[2] != 1 or r[3] != 1):      # unconditional: the zero tolerance included
             out.append(fail("prop", "Floats_Equal is not reflexive", "Floats_Equal(%r,%r)=%d, Floats_Equal(%r,%r)=%d (tol %r)" % (x, x, r[2], y, y, r[3], t)))
         rd = fr(tm[1])
-        knife = rd != 0 and abs(Fraction(t) - rd) <= rd / 2 ** 30
+        fx, fy = Fraction(x), Fraction(y)
+        exact = (not math.isinf(x - y)) and Fraction(abs(x - y)) == abs(fx - fy) and (
+            fx == fy or Fraction(abs(x - y) / max(abs(x), abs(y))) == rd)
+        knife = rd != 0 and abs(Fraction(t) - rd) <= rd / 2 ** 30 and not exact
         if r[0] != int(tm[0]):
             if knife:
                 ctx["excused"] += 1
@@ -604,7 +621,7 @@ def compare(rq, impl, model, ctx):
             worst(ctx, "Y_lm abs err", abs(M.mpc(z) - ref))
             if abs(M.mpc(z) - ref) > tol:
                 out.append(fail("prop", "Spherical_Harmonics differs from Y_lm", "Y_%d,%d(%r,%r)=%r ref %s" % (l, m, th, ph, z, M.nstr(ref, 12))))
-            if abs(zneg - (-1) ** (m % 2) * z.conjugate()) > tol:
+            if zneg != (-1) ** (m % 2) * z.conjugate():      # "equals": exact
                 out.append(fail("prop", "Y_{l,-m} != (-1)^m conj(Y_{l,m})", "l=%d m=%d: %r vs %r" % (l, m, zneg, z)))
             return out
         n = int(ti[0])
@@ -616,11 +633,12 @@ def compare(rq, impl, model, ctx):
         exp_ = expansion("Y" if op == "c17.vshY" else "Psi", l, m, thm, phm)
         dev = max(abs(M.mpc(vec[i]) - exp_[i]) for i in range(3))
         worst(ctx, op + " dev from table expansion", dev)
+        tol_v = 64 * 2.0 ** -53         # audit: worst 4.4e-16 / 2.7e-16 on HEAD
         if op == "c17.vshY":
             ref = [rhat[i] * yref(l, m, thm, phm) for i in range(3)]
             err = max(abs(M.mpc(vec[i]) - ref[i]) for i in range(3))
             worst(ctx, "vector Y abs err", err)
-            if err > tol:
+            if err > tol_v:
                 out.append(fail("prop", "Vector_Spherical_Harmonics_Y differs from r_hat * Y_lm", "l=%d m=%d (%r,%r): %r ref %s" % (
                     l, m, th, ph, vec, [M.nstr(r, 10) for r in ref])))
             elif dev > tol:
@@ -630,7 +648,7 @@ def compare(rq, impl, model, ctx):
         lm_scale = math.sqrt(l * (l + 1)) + 1
         rad = sum(rhat[i] * M.mpc(vec[i]) for i in range(3))
         worst(ctx, "Psi radial part", abs(rad))
-        if abs(rad) > tol * lm_scale:
+        if abs(rad) > tol_v * lm_scale:
             out.append(fail("prop", "Vector_Spherical_Harmonics_Psi is not tangential", "l=%d m=%d (%r,%r): r.Psi=%s" % (l, m, th, ph, M.nstr(rad, 6))))
         if dirclass != "pole":
             th_hat = [M.cos(thm) * M.cos(phm), M.cos(thm) * M.sin(phm), -M.sin(thm)]
